@@ -87,7 +87,12 @@ template <unsigned N> static void do_case(const std::string& id, std::vector<std
     bool onface = true;
     for (unsigned a = 0; a < N; ++a)
         if (b.constrained(a) && !(b.position(a) == region_.lower(a) || b.position(a) == region_.upper(a))) onface = false;
-    bool nonneg = b.error >= -1e-9 * scale;
+    // the error is evaluated as x'AtAx - 2x'AtB + BtB: with the position far from the samples the three terms cancel, and
+    // the rounding noise of the first is eps * sum |n|^2 * |x|^2 (a false alarm of the nearly-parallel family otherwise)
+    double sumn2 = 0.0;
+    for (auto& s : ss) if (s.n.array().isFinite().all()) sumn2 += s.n.squaredNorm();
+    const double posn2 = b.position.array().isFinite().all() ? b.position.squaredNorm() : 0.0;
+    bool nonneg = b.error >= -(1e-9 * scale + 16 * 2.220446049250313e-16 * sumn2 * posn2);
     double e2 = q.error(b.position, b.value);
     bool trueerr = std::fabs(e2 - b.error) <= 1e-9 * (scale + std::fabs(e2)) || (std::isnan(e2) && std::isnan(b.error));
     bool ukept = !ucont || ((u.position - b.position).norm() == 0 && hex64(u.error) == hex64(b.error));
